@@ -4,6 +4,7 @@ import (
 	"encoding/base64"
 	"fmt"
 	"math/rand"
+	"sort"
 	"strings"
 )
 
@@ -216,7 +217,49 @@ func httpEngGen(rng *rand.Rand, n int, emit func(string)) {
 		return httpGenRoute{}, false
 	}
 	silentDone := false
+	// FAULTS MID-EXCHANGE (eng_http_fault.go), from an RNG of their own, every 24th op: on a route that is registered
+	// right now (any mode: an unreachable one answers the not-found page, fault or not)
+	frng := sideRng(0xfa17)
+	faultOp := func() {
+		if len(routes) == 0 {
+			return
+		}
+		ks := make([]string, 0, len(routes))
+		for k := range routes {
+			ks = append(ks, k)
+		}
+		sort.Strings(ks)
+		r := routes[ks[frng.Intn(len(ks))]]
+		if r.mode == "silent" {
+			return
+		}
+		path := "/"
+		if r.loc != "" {
+			path = r.loc
+		}
+		path = strings.TrimSuffix(path, "/") + pick(frng, []string{"/", "/", "/x", "/b%20c"})
+		host := concreteHost(frng, r.domain)
+		if frng.Intn(6) == 0 {
+			// the h2c leg: the answer travels as an HTTP/2 stream (END_STREAM vs RST_STREAM)
+			n := 1 + frng.Intn(20000)
+			kind := pick(frng, []string{"cl", "ch", "ch", "eof"})
+			k := frng.Intn(n + 1)
+			if kind == "cl" && k == n {
+				k = n - 1
+			}
+			uq := "-"
+			if r.usr != "" {
+				uq = hx(r.usr)
+			}
+			emit(fmt.Sprintf("fh2c %s %s %s %d %s:%s d%d", hx(host), hx(path), uq, pick(frng, []int{200, 200, 201, 500}), kind, httpEngTok(frng.Intn(100000), n), k))
+			return
+		}
+		emit(httpGenFault(frng, host, path, r.usr))
+	}
 	for i := 0; i < n; i++ {
+		if i%24 == 23 {
+			faultOp()
+		}
 		k := rng.Intn(1000)
 		switch {
 		case k < 6:
